@@ -31,7 +31,7 @@ Rec == TLCEval(ndJsonDeserialize(IOEnv.TRACE))
 
 Mon(label, ok, witness) ==
     IF ok THEN TRUE
-    ELSE PrintT("MONJ " \o ToJson([mon |-> label, fam |-> scn[1], id |-> scn[2], i |-> Rec[l].i,
+    ELSE PrintT("MONJ " \o ToJson([mon |-> label, fam |-> scn[1], id |-> scn[2], i |-> l,
                                    w |-> ToString(witness)]))
 
 SeqToSet(s) == {s[i] : i \in DOMAIN s}
@@ -243,7 +243,9 @@ InterruptedCall == call.stop >= 0
 SolLabel(api) == IF api = "assume" THEN "C05.SatIsSolution" ELSE "C01.SolutionHolds"
 
 TrReturn(ev) ==
-    /\ Mon("C02.NoTermination", ~ev.capped, ev.polls)
+    \* the harness stops a run after 60 000 polls (6 000 when every engine event is recorded): only
+    \* the former is taken as evidence of non-termination, the latter is informational
+    /\ Mon(IF ev.polls >= 60000 THEN "C02.NoTermination" ELSE "C02x.CappedEarly", ~ev.capped, ev.polls)
     /\ Mon("C10.BackAtRoot", ~eng \/ level = 0, level)
     /\ CASE ev.res = "SAT" /\ ev.api \in {"satisfy", "assume"} ->
               /\ Mon("C01.Total", Len(ev.sol) = Len(vars)
@@ -297,7 +299,7 @@ TrIterEnd(ev) ==
               /\ Mon(IF call.base # sol THEN "C10.StaleInternalClauses" ELSE "C03.Complete",
                      sol = {}, <<"missing", sol>>)
               /\ Mon("C03.EndKind", yielded = {}, "UNSAT after a solution")
-         [] OTHER -> Mon("C11.UnknownOnlyIfInterrupted", InterruptedCall \/ call.polls >= 60000,
+         [] OTHER -> Mon("C11.UnknownOnlyIfInterrupted", InterruptedCall \/ call.polls >= 6000,
                          "iteration ended UNKNOWN without interrupt")
     /\ UNCHANGED evars
     /\ UNCHANGED <<scn, eng, before>>
